@@ -4,6 +4,7 @@ from .values import *
 from .joins import Maybe
 from .expr import DictV
 
+DEADALT = object()
 FMT_RE = re.compile(r'%(?:\((\w+)\))?([-0 +#]*)(\d+)?(?:\.(\d+))?([sdXxr%])')
 
 
@@ -20,6 +21,8 @@ class Subs:
     def ev_Subscript(self, node, env):
         S = self.ctx.S
         base = self.eval(node.value, env)
+        if self.ctx.stack and not isinstance(node.slice, ast.Slice):
+            self.ctx.visited.add((self.ctx.stack[-1][0], node.lineno, node.col_offset, 'subscript'))
         if isinstance(base, Maybe):
             res = None
             for alt in base.alts:
@@ -154,8 +157,14 @@ class Subs:
             return self.elem_of(base, env)
         if isinstance(base, RegDict):
             key = S.const_value(env, idx) if isinstance(idx, Str) else None
-            self.ctx.reg_obligations.append((base.name, key, self.ctx.stack[-1], node.lineno))
-            self.ctx.raise_('KeyError', node, env, 'registry %s key %r (discharged by the registry check)' % (base.name, key))
+            if key is not None and ('haskey', id(base), key) in env.facts:
+                return S.any_str(env)
+            if key is None:
+                self.ctx.raise_('KeyError', node, env, 'registry %s subscripted with a non-constant key' % base.name)
+                return S.any_str(env)
+            given = tuple(sorted(f[2] for f in env.facts if isinstance(f, tuple) and len(f) == 3 and f[0] == 'haskey' and f[1] == id(base)))
+            self.ctx.raise_('KeyError', node, env, 'registry %s: property %r must be present%s' % (base.name, key, (' when %s is' % ','.join(given)) if given else ''),
+                            reg=(base.name, key, given))
             return S.any_str(env)
         if isinstance(base, Opaque) and base.kind == 'defaultdict_int':
             return Int(0, None)
@@ -206,7 +215,11 @@ class Subs:
     # ---------------------------------------------------------- attributes
     def ev_Attribute(self, node, env):
         base = self.eval(node.value, env)
-        return self.getattr(base, node.attr, node, env)
+        r = self.getattr(base, node.attr, node, env)
+        if r is DEADALT:
+            env.dead = True
+            return TOP
+        return r
 
     def getattr(self, base, attr, node, env):
         if isinstance(base, Mod):
@@ -249,11 +262,19 @@ class Subs:
             res = None
             for alt in base.alts:
                 r = self.getattr(alt, attr, node, env)
+                if r is DEADALT:
+                    continue
                 res = r if res is None else MethodSet.of(res, r)
+            if res is None:
+                env.dead = True
+                return TOP
             return res
         if isinstance(base, RegNone):
-            self.ctx.raise_('AttributeError', node, env, 'registry %s key %r may be absent (discharged by the registry check)' % (base.name, base.key))
-            return TOP
+            # <props>.get(key) used as if the key were always present: obligation for the registry check;
+            # this alternative does not continue
+            self.ctx.raise_('AttributeError', node, env, 'registry %s: property %r must be present (its value is used unconditionally)' % (base.name, base.key),
+                            reg=(base.name, base.key, ()))
+            return DEADALT
         if base is NONE or base is TOP:
             self.ctx.raise_('AttributeError', node, env, 'attribute %s of %r' % (attr, base))
             return TOP
